@@ -44,9 +44,11 @@ def lostParts (d d' : Decl) : List String :=
 
 def keeps (d d' : Decl) : Bool := lostParts d d' == []
 
-/-- resolver methods whose field still exists -/
+/-- resolver methods whose field still exists. A resolver method of a field is the method of that name on
+the receiver type the template writes for the field's object (`emittedReqs`: what the previous run put into the
+user's file) — not the name under which the generator happens to search for it. -/
 def methodViolations (cfg : Cfg) (before : Pkg) (sch : Schema) (after : Pkg) : List Violation :=
-  (resolverReqs cfg sch).flatMap fun r =>
+  (emittedReqs cfg sch).flatMap fun r =>
     match firstMatch before r.recv r.name with
     | none => []
     | some (_, d) =>
@@ -71,7 +73,7 @@ def importViolations (before : Pkg) (after : List AfterFile) : List Violation :=
         then [.importLost f.name i.alias i.path] else []
 
 def keptAsMethod (cfg : Cfg) (sch : Schema) (after : Pkg) (d : Decl) : Bool :=
-  d.isFunc && (resolverReqs cfg sch).any (fun r => isMethod r.recv r.name d) &&
+  d.isFunc && (emittedReqs cfg sch).any (fun r => isMethod r.recv r.name d) &&
   (allDecls after).any fun kd => isMethod d.recv d.name kd.2 && keeps d kd.2
 
 def declViolations (cfg : Cfg) (before : Pkg) (sch : Schema) (after : List AfterFile) : List Violation :=
